@@ -63,9 +63,13 @@ def set_border(rec, rng, nb, nt=1):
     times = [rng.randint(0, 2) for _ in range(nt)] if has_t else [None]
     if has_t:
         times = list(dict.fromkeys(times + [0, 1, 2]))[:nt]
+    own_times = has_t and rng.random() < 0.5      # a hand-built batch may carry its OWN time stamps on every facet (the generators repeat them)
     for f in range(2 * dim):
+        if own_times and f:
+            times = [rng.randint(0, 2) for _ in range(nt)]
+            times = list(dict.fromkeys(times + [(times[0] + 1 + k) % 3 for k in range(3)]))[:nt]
         pts = []
-        for _ in range(1 if dim == 1 else nb):
+        for _ in range(nb if (dim > 1 or rec.get("rep1d")) else 1):
             x = [rng.randint(-1, 1) for _ in range(dim)]
             x[f // 2] = -2 if f % 2 == 0 else 2
             pts.append(x)
@@ -182,6 +186,7 @@ def expand_c04(st, seed):
     r["R"] = []
     r["V"] = _quad_net(rng, nin, has_t, nout)
     set_inside(r, rng, 2)
+    r["rep1d"] = True
     set_border(r, rng, st["nb"], st["nt"])
     r["w"]["bnd"] = [2]
     r["bndform"] = st["form"]
@@ -247,7 +252,7 @@ def expand_c05(st, seed):
             r["ic"] = dict(on=True, t0=0, u0=[rpoly(rng, dim, 2, 2) for _ in range(nout)])
             r["w"]["ic"] = wv(nout)
     elif term == "norm":
-        r["sol"] = [1, 1]
+        r["sol"] = [2, nout] if st.get("sol") == "tail" else [1, 1]      # tail with three outputs: a TWO-component solution
         r["V"] = _quad_net(rng, nin, has_t, nout)      # non-constant over the samples
         samples, tries = [], 0
         while len(samples) < st["ns"]:
@@ -325,6 +330,24 @@ def expand_c12(st, seed):
         rows = [rpoint(rng, nin, has_t) for _ in range(b)]
         r["obsd"] = dict(on=True, **{"in": rows}, val=[[rng.randint(-3, 3)] for _ in range(b)], slice=[1, 1],
                          etab=[[], [], [5 + i for i in range(b)]] if not st["ot"] else [[rng.choice([1, 2]) + i for i in range(b)], [], []])
+    if st.get("normp"):
+        ns = b if lk == "statio" else 8 // b      # non-stationary: any number of samples (a power of two keeps the means exact)
+        samples, tries = [], 0
+        while len(samples) < ns:
+            x = [rng.randint(-3, 4) for _ in range(dim)]
+            tries += 1
+            if x not in samples or tries > 80:
+                samples.append(x)
+        r["V"] = _quad_net(rng, nin, has_t, 1)
+        r["norm"] = dict(on=True, samples=samples, L=rng.choice([1, 2]))
+        r["w"]["norm"] = [rng.choice([1, 2, 3])]
+    if st.get("bndp", "none") != "none":
+        r["V"] = _quad_net(rng, nin, has_t, 1)
+        set_border(r, rng, b, 1)
+        r["border"] = [(rows * b)[:b] for rows in r["border"]]       # as many border rows as parameter rows (1-D: the facet point repeated)
+        r["bnd"] = [dict(kind=st["bndp"], g=[rpoly(rng, nin, 2, 1) + [dict(c=rng.choice([1, 2, 3]), e=[0] * nin)]], comp=[1, 1]) for _ in range(2 * dim)]
+        r["bnd"] = [r["bnd"][0]] * (2 * dim)      # global form: one condition and one f for every facet
+        r["w"]["bnd"] = [rng.choice([1, 2, 3])]
     r["Tmax"] = [1, 3, 2][(b + len(st["batched"])) % 3]       # an attribute of the dynamic loss our equations do not use: no effect expected
     r["check"] = ["sum", "dyn", "ic", "norm", "bnd", "obs"]
     return r
